@@ -147,11 +147,15 @@ class RichGen:
             return [T("List"), T("<")] + self.type_(depth - 1) + [T(">")]
         return [T("Map"), T("<")] + self.type_(depth - 1) + [T(",")] + self.type_(depth - 1) + [T(">")]
 
-    def document(self, kind=None):
+    def document(self, kind=None, big=None):
         r = self.r
         kind = kind or r.choice(["interface", "interface", "parcelable", "enum"])
+        # now and then a LARGE document: 17+ imports / members / arguments / elements (size thresholds, growth of
+        # internal tables, N-th element effects)
+        big = (r.random() < 0.04) if big is None else big
+        many = (lambda small: r.randint(17, 22)) if big else (lambda small: r.choice(small))
         toks = [T("package")] + self.qname() + [T(";")]
-        for _ in range(r.choice([0, 0, 1, 2, 3])):
+        for _ in range(many([0, 0, 1, 2, 3])):
             toks += [T("import")] + dotted([r.choice(NEAR) for _ in range(r.randint(2, 4))]) + [T(";")]
         for _ in range(r.choice([0, 0, 0, 1, 2])):
             toks += self.annotations(0.2) + [T("parcelable")] + self.qname() + [T(";")]
@@ -161,7 +165,7 @@ class RichGen:
             if r.random() < 0.3:
                 toks.append(T("oneway"))
             toks += [T("interface"), self.ident(), T("{")]
-            for _ in range(r.choice([0, 1, 2, 3, 5])):
+            for _ in range(many([0, 1, 2, 3, 5])):
                 toks += self.annotations(0.25)
                 if r.random() < 0.25:
                     toks += [T("const")] + self.type_(min(d, 1)) + [self.ident(), T("=")] + self.value() + [T(";")]
@@ -169,7 +173,7 @@ class RichGen:
                 if r.random() < 0.3:
                     toks.append(T("oneway"))
                 toks += self.type_(d, allow_void=True) + [self.ident(), T("(")]
-                n = r.choice([0, 1, 2, 3])
+                n = r.randint(17, 19) if (big and r.random() < 0.15) else r.choice([0, 1, 2, 3])
                 for a in range(n):
                     if r.random() < 0.6:
                         toks.append(T(r.choice(["in", "out", "inout"])))
@@ -185,7 +189,7 @@ class RichGen:
             toks.append(T("}"))
         elif kind == "parcelable":
             toks += [T("parcelable"), self.ident(), T("{")]
-            for _ in range(r.choice([0, 1, 2, 4])):
+            for _ in range(many([0, 1, 2, 4])):
                 toks += self.annotations(0.25)
                 if r.random() < 0.25:
                     toks += [T("const")] + self.type_(min(d, 1)) + [self.ident(), T("=")] + self.value() + [T(";")]
@@ -197,7 +201,7 @@ class RichGen:
             toks.append(T("}"))
         else:
             toks += [T("enum"), self.ident(), T("{")]
-            n = r.choice([0, 1, 2, 4])
+            n = many([0, 1, 2, 4])
             for k in range(n):
                 toks += self.annotations(0.2) + [self.ident()]
                 if r.random() < 0.4:
@@ -214,7 +218,8 @@ class RichGen:
 WS_SIMPLE = [" ", "  ", "\n", "\t", "\r\n", " \n  ", "\n\n"]
 WS_UNICODE = ["\u00a0", "\u3000", "\u2028", "\u0085", "\u2002", "\x0b", "\x0c", "\r", " \u3000\n", "\u2029"]
 COMMENT_WORDS = ["c", "note", "todo x", "caf\u00e9", "\u4e2d\u4e2d", "\U0001F600 ok", "a = b;", "e\u0301\u0301 x"]
-COMMENT_WORDS_WILD = ["/* not nested", "* star", "// slashes", "a / b * c", "\"quote", "@ann"]
+COMMENT_WORDS_WILD = ["/* not nested", "* star", "// slashes", "a / b * c", "\"quote", "@ann", "x *", "x **", "*** banner **",
+                      "* x ***", "**"]
 
 
 def trivia_piece(rng, unicode_ws=True, wild_comments=False):
@@ -230,6 +235,8 @@ def trivia_piece(rng, unicode_ws=True, wild_comments=False):
         w = rng.choice(words)
         if "*/" in w:
             w = "c"
+        if w.endswith("*"):
+            return piece("BCOM", "/* " + w + "/")            # closing run of several stars: /* x **/
         return piece("BCOM", "/* " + w + " */" if not w.startswith("/*") else "/* x " + w[2:] + " */")
     return piece("BCOM", "/**/")
 
@@ -292,12 +299,16 @@ def layout(toks, rng, mode="mixed", docs=0.0, unicode_ws=True, wild_comments=Fal
     out = []
     n = len(toks)
     nl = nl or rng.choice(["\n", "\n", "\r\n"])
-    if rng.random() < 0.5:
+    far = rng.random() < 0.03
+    if far:
+        # lines and columns beyond 255 / 256: many leading line breaks, then a long run of blanks
+        out.append(piece("WS", nl * rng.randint(250, 300) + " " * rng.randint(250, 300)))
+    elif rng.random() < 0.5:
         out.append(trivia_piece(rng, unicode_ws, wild_comments))
     for i, (k, t) in enumerate(toks):
         if docs and rng.random() < docs and (i == 0 or toks[i - 1][1] in (";", "{", "}", ",", "(")):
             out.append(doc_piece(rng, nl))
-            out.append(piece("WS", rng.choice([" ", nl, nl + "    "])))
+            out.append(piece("WS", rng.choice([" ", nl, nl + "    ", "\t", nl + "\t", " \t "])))
             if rng.random() < 0.25:
                 out.append(piece("BCOM", "/* plain */") if rng.random() < 0.5 else piece("LCOM", "// plain" + nl))
                 out.append(piece("WS", rng.choice([" ", nl])))
